@@ -94,11 +94,34 @@ def instances(tier):
     return out
 
 
+def ring_family(tier):
+    """5-cycle colouring (2 colours, 3 on the last variable so that it is satisfiable), max_distance = diameter = 2: the smallest
+    graph with a constraint whose two ends are both at distance = diameter of another agent. Far too large for all interleavings
+    (> 10^6 states): explored delay-bounded - the canonical 'first' (thorough also 'last') schedule plus every execution with at most
+    2 departures from it - and sharded by the initial assignment (48 shards)."""
+    names = [f"v{i}" for i in range(5)]
+    doms = {v: [0, 1] for v in names}
+    doms["v4"] = [0, 1, 2]
+    edges = [(names[i], names[(i + 1) % 5]) for i in range(5)]
+    spec = {"vars": doms, "cons": [{"name": f"c{i}", "scope": list(e), "table": [[INF if a == b else 0 for b in range(len(doms[e[1]]))] for a in range(len(doms[e[0]]))]} for i, e in enumerate(edges)], "mode": "min"}
+    out = []
+    scheds = ("dev:first:2",) if tier == "quick" else ("dev:first:2", "dev:last:2", "dev:alt:2")
+    for sched in scheds:
+        for init in itertools.product(*[range(len(doms[v])) for v in names]):
+            out.append((spec, {"max_distance": 2, "infinity": INF}, 3 if tier == "quick" else 5, sched, dict(zip(names, init))))
+    return out
+
+
 def explore(item, part):
-    spec, params, horizon = item
+    spec, params, horizon = item[:3]
+    sched, init = (item[3], item[4]) if len(item) > 3 else ("all", None)
     world, shared, _ = ls_common.build_world(spec, "dba", params)
     sp = DbaSpec(spec, params, horizon)
-    ex = netx.Explorer(sp, shared=shared, max_states=600000)
+    ex = netx.Explorer(sp, shared=shared, max_states=600000, schedule=sched)
+    if init is not None:
+        # this shard: the start events draw exactly this initial assignment (first random answer of on_start)
+        ex.succ_filter = lambda ev, choices: ev[0] != "start" or not choices or choices[0] == init[ev[1]]
+        part.count("delay_bounded_shards")
 
     def report(key, what, w, hist):
         part.violation(key, what, {"spec": spec, "params": params, "horizon": horizon, "history": netx.unroll(hist)})
@@ -115,9 +138,9 @@ def explore(item, part):
     if ex.capped:
         part.count("capped_instances")
     fins = {d for d in ex.end_digests}
-    part.outcome((repr(spec), repr(params), tuple(sorted(fins))))
+    part.outcome((repr(spec), repr(params), sched, repr(init), tuple(sorted(fins))))
     if any("fin" in d or "(" in d for d in fins):
-        part.nontriv((repr(spec), repr(params)))
+        part.nontriv((repr(spec), repr(params), sched, repr(init)))
     part.sample({"spec": spec, "params": params, "states": st["states"], "traces": st["traces"]}, cap=1)
 
 
@@ -135,11 +158,14 @@ def run(ctx):
         "infinity=10000: the pair with ALL 16 {0,infinity} tables, graph colouring on the 3-chain, the triangle (thorough: the 4-chain) with 2 and "
         f"3 colours, max_distance in {{diameter, diameter+1}}; ALL start orders, delivery interleavings, initial values and tie picks with state "
         f"caching, horizon {H} cycles per computation (4-5 for the larger ones). Oracle evaluated inside every finished() notification: the "
-        "values held by all computations at that moment violate no constraint. evaluations = instances"
+        "values held by all computations at that moment violate no constraint. Plus the 5-cycle (2 colours, 3 on one variable, max_distance 2 = "
+        "diameter), delay-bounded: the canonical 'first' schedule (thorough: also 'last' and alternating) and every execution with at most 2 "
+        "departures from it, for every initial assignment (one shard each), horizon 3 (thorough 5) cycles. evaluations = instances / shards"
     )
     ctx.assumptions = ["Network model: one FIFO channel per ordered pair of computations.", "State merging by canonical form; the log of finished() observations is part of the state.",
                        "Safety property checked up to a cycle horizon; weights grow without bound on unsatisfiable instances."]
     items.sort(key=lambda it: -(len(it[0]["vars"]) * 10 + len(it[0]["vars"]["v0"]) * 5 + it[2]))
+    items = items + ring_family(ctx.tier)
     ctx.pmap(shard, items)
     if ctx.part.counters.get("capped_instances"):
         ctx.exhaustive = False
